@@ -111,12 +111,7 @@ def run_tlc(
     """Run TLC on spec/<module>.tla with the config file spec/mc/<cfg> (or an
     absolute path).  The spec tree is copied into the scratch directory so
     that nothing is written under /verif/spec."""
-    work = scratch.dir / "spec"
-    if not work.exists():
-        shutil.copytree(SPEC, work)
-        for sub in ("mc", "trace"):
-            for f in (work / sub).glob("*.tla"):
-                shutil.copy(f, work / f.name)
+    work = sany_copy(scratch)
     cfgp = Path(cfg)
     if not cfgp.is_absolute():
         cfgp = work / "mc" / cfg
@@ -166,7 +161,21 @@ def sany_copy(scratch: Scratch) -> Path:
         for sub in ("mc", "trace"):
             for f in (work / sub).glob("*.tla"):
                 shutil.copy(f, work / f.name)
+        _write_generated(work)
     return work
+
+
+def _write_generated(work: Path) -> None:
+    """Modules derived from the working tree at check time (never committed)."""
+    from . import gamma
+
+    names = gamma.inline_names()
+    lit = ", ".join(f'"{n}"' for n in names)
+    (work / "CatalogueInline.tla").write_text(
+        "-------------------------- MODULE CatalogueInline --------------------------\n"
+        "(* generated at check time from scripts/generate_tags.py (_INLINE_TAG_NAMES) *)\n"
+        f"Inline == {{ {lit} }}\n"
+        "=============================================================================\n")
 
 
 def sany(scratch: Scratch, module: str) -> None:
